@@ -7,7 +7,7 @@ from typing import Dict, List, Optional, Set, Tuple
 
 from ..core import AnalysisError, RuleSpec
 from . import common
-from ..pymodel import call_name
+from ..pymodel import call_name, PyModel
 from .. import astq
 
 EXPLANATION = (
@@ -533,6 +533,70 @@ def r9_attribute_split(ctx, rep):
         raise AnalysisError("line_to_variables: no pattern that splits attributes from entities at `::` found")
 
 
+def r10_printed_accessibility_is_the_entitys_own(ctx, rep):
+    """Where a template prints an accessibility word in front of an entity (`public subroutine s(a)`), it prints that entity's
+    `permission` - not that of the thing it is listed under.  An interface body inside a generic interface is as accessible as
+    the scope default and access statements make *it*; the generic's name can be public while its specifics are private."""
+    j = ctx.j
+    n = 0
+    for o in j.outputs:
+        if not re.search(r"\.permission$", o.src.split("|")[0].strip()):
+            continue
+        n += 1
+        path = o.src.split("|")[0].strip()
+        via = re.search(r"\.(parent|procedure|prototype|proto\[\d\])\.permission$", path)
+        # the only legitimate indirection: a component's type link guarded by the type's own permission (`var.proto[0].permission`
+        # is tested, never printed)
+        ok = via is None
+        rep.ob(f"template={o.template} prints `{path}`", ok,
+               "the entity's own accessibility" if ok else
+               f"`{{{{ {path} }}}}` prints the accessibility of another entity (`.{via.group(1)}`) in the heading of this one: for an interface "
+               f"body of a generic interface (default `private`, `public :: gen`) the page says `public` although the specific is "
+               f"private", o.loc)
+    if n < 5:
+        raise AnalysisError(f"only {n} template outputs of an accessibility found")
+
+
+def r11_entity_name_is_cut_at_every_suffix(ctx, rep):
+    """An entity declaration is `name [ (array-spec) ] [ lbracket coarray-spec rbracket ] [ * char-length ]` (R503).  Access statements
+    and attribute statements find a variable under its bare name, so the name stored for it is cut at the first of `(`, `[` and
+    `*` - if one of the three is not looked for, `character :: fname*80` is stored as `fname*80` and `private :: fname` never
+    reaches it."""
+    py = ctx.py
+    fn = py.func("FortranVariable.__init__")
+    cenv = dict(py.module_env("sourceform"))
+    for k in py.classes["FortranVariable"].class_attrs:
+        v = py.const_value("FortranVariable", k)
+        if v is not PyModel._UNKNOWN:
+            cenv[k] = v
+    found: Set[str] = set()
+
+    def take(v):
+        if isinstance(v, str) and 0 < len(v) <= 4 and all(not ch.isalnum() and not ch.isspace() and ch != "_" for ch in v):
+            found.update(v)
+        elif isinstance(v, (list, tuple, set, frozenset)):
+            for x in v:
+                take(x)
+    for n in ast.walk(fn):
+        if isinstance(n, ast.Constant):
+            take(n.value)
+        elif isinstance(n, ast.Name) and n.id in cenv:
+            take(cenv[n.id])
+        elif isinstance(n, ast.Attribute) and n.attr in cenv and ast.unparse(n.value) in ("self", "cls", "FortranVariable", "type(self)"):
+            take(cenv[n.attr])
+    # only what takes part in cutting the name: the function must assign both self.name and self.dimension from the name
+    cuts = [a for a in ast.walk(fn) if isinstance(a, ast.Assign) and any(ast.unparse(t) == "self.dimension" for t in a.targets)
+            and "name" in ast.unparse(a.value)]
+    if not cuts:
+        raise AnalysisError("FortranVariable.__init__: the split of the declared name into name and dimension was not found")
+    need = {"(", "[", "*"}
+    ok = need <= found
+    rep.ob("FortranVariable: the declared name is cut at `(`, `[` and `*`", ok,
+           f"suffix openings looked for: {sorted(found & set('([*'))}" if ok else
+           f"the name is cut at {sorted(found & set('([*'))} only - `{sorted(need - found)[0]}` is not looked for: `character :: fname*80` is "
+           f"stored under the name `fname*80`, and an access statement naming `fname` does not reach it", py.nloc(cuts[0]))
+
+
 RULES = [
     RuleSpec("C04.R1", r1_plumbing, "permission plumbing table", floor=12),
     RuleSpec("C04.R2", r2_declaration_attributes, "declaration access attributes", floor=3),
@@ -543,4 +607,6 @@ RULES = [
     RuleSpec("C04.R8", r8_statement_fragments, "statements reach the parser without surrounding blanks (shared with C02.R5)", floor=3),
     RuleSpec("C04.R9", r9_attribute_split, "the attribute list of a declaration ends at the first `::`", floor=1),
     RuleSpec("C04.R7", r7_names_and_given_permission, "names are spelled like their access-statement keys; a given accessibility is stored", floor=15),
+    RuleSpec("C04.R10", r10_printed_accessibility_is_the_entitys_own, "templates print the entity's own accessibility", floor=5),
+    RuleSpec("C04.R11", r11_entity_name_is_cut_at_every_suffix, "a declared name is cut at every kind of suffix (R503)", floor=1),
 ]
